@@ -51,6 +51,12 @@ T_Cmp == /\ IsEv("cmp")
             /\ CASE r = "LT"    -> Rec[l].ixfr = "transfer"
                  [] r = "UNDEF" -> Rec[l].ixfr \in {"single", "transfer"}
                  [] OTHER       -> Rec[l].ixfr = "single"
+            \* the same request when the provider has no diffs: a client with the
+            \* same or a newer serial still gets the single SOA, an older one the
+            \* whole zone (the middleware's ixfr_client_is_current)
+            /\ CASE r = "LT"    -> Rec[l].ixfrnodiffs = "transfer"
+                 [] r = "UNDEF" -> Rec[l].ixfrnodiffs \in {"single", "transfer"}
+                 [] OTHER       -> Rec[l].ixfrnodiffs = "single"
          /\ UNCHANGED cur
 
 T_Add == /\ IsEv("add")
